@@ -191,7 +191,7 @@ static bool parseScript(const std::string& s, Script& out)
     else if (a.op == "sh" && p.size() == 3) { if (!hexStr(p[1], a.a) || !hexStr(p[2], a.b)) return false; }
     else if (a.op == "bd" && p.size() == 2) { if (!hexStr(p[1], a.a)) return false; }
     else if (a.op == "eh" && p.size() == 2) { if (!hexStr(p[1], a.a)) return false; }
-    else if ((a.op == "sup" || a.op == "thr" || a.op == "thx" || a.op == "echo") && p.size() == 1) {}
+    else if ((a.op == "sup" || a.op == "thr" || a.op == "thx" || a.op == "echo" || a.op == "mark") && p.size() == 1) {}
     else if (a.op == "big" && p.size() == 3) { try { a.n = std::stoll(p[1]); a.fill = static_cast<unsigned>(std::stoul(p[2])); } catch (...) { return false; } if (a.fill > 255) return false; }
     else if (a.op == "sleep" && p.size() == 2) { try { a.n = std::stoll(p[1]); } catch (...) { return false; } }
     else if (a.op == "gate" && p.size() == 1) {}
@@ -212,6 +212,10 @@ struct ScriptedServer : HttpServer
   bool suppressHook = false;
   int suppressThrow = 0;                     // 1: the seam throws a std::exception, 2: something else
   int drainThrow = 0;                        // onUpgradedData (third virtual hook): 0 returns, 1 throws std::exception, 2 something else
+  long drainThrowAt = -1;                    // -1: at every call, k: only at call number k of the current request (0-based)
+  std::atomic<long> drainCallCount{0};       // calls of onUpgradedData during the current request
+  std::deque<std::string> laterReads;        // reads that arrive while the drain loop is inside the hook: the next one is fed to the REAL
+                                             // handleIncomingData (which queues it behind, under the upgrade hold) at each hook call
   std::atomic<bool> flipInUserCode{false};   // "stop() is called while user code runs": user code sets _shutdown
   std::atomic<bool> userSuppressed{false};   // a handler returned with _suppressSend set / the seam returned true
 
@@ -224,11 +228,21 @@ struct ScriptedServer : HttpServer
     runScript(*this, *upgradeScript, req, res);
     return true;
   }
-  void onUpgradedData(SessionId, const std::uint8_t*, std::size_t len) override
+  void onUpgradedData(SessionId sid, const std::uint8_t*, std::size_t len) override
   {
+    long k = drainCallCount++;
     bump(len > 0 ? "drain:onUpgradedData" : "drain:onUpgradedData-empty");
-    if (drainThrow == 1) { bump("drain:threw-std"); throw std::runtime_error("scripted upgraded-data failure"); }
-    if (drainThrow == 2) { bump("drain:threw-other"); throw 42; }
+    if (k > 0) bump("drain:second-or-later-pass-of-the-loop");
+    if (!laterReads.empty())
+    {
+      std::string next = std::move(laterReads.front());
+      laterReads.pop_front();
+      bump("drain:read-arrives-during-hook");
+      handleIncomingData(sid, reinterpret_cast<const std::uint8_t*>(next.data()), next.size());
+    }
+    bool now = drainThrowAt < 0 || drainThrowAt == k;
+    if (drainThrow == 1 && now) { bump("drain:threw-std"); throw std::runtime_error("scripted upgraded-data failure"); }
+    if (drainThrow == 2 && now) { bump("drain:threw-other"); throw 42; }
   }
   bool onResponseSuppressed(SessionId, const Request&, Response&) override
   {
@@ -249,6 +263,7 @@ static void runScript(ScriptedServer& self, const Script& sc, const HttpServer::
     else if (a.op == "bd") res.body = a.a;
     else if (a.op == "eh") res.headers.erase(a.a);
     else if (a.op == "sup") res._suppressSend = true;
+    else if (a.op == "mark") { self.markSessionUpgraded(req.sid); bump("upgrade-hook:markSessionUpgraded"); }
     else if (a.op == "thr") throw std::runtime_error("scripted handler failure");
     else if (a.op == "thx") throw 42;
     else if (a.op == "echo")
@@ -370,6 +385,8 @@ struct Lock
     s->suppressHook = false;
     s->suppressThrow = 0;
     s->drainThrow = 0;
+    s->drainThrowAt = -1;
+    s->laterReads.clear();
   }
 
   bool poolIdle()
@@ -604,6 +621,22 @@ static void countCategory(ScriptedServer& s, const std::string& raw, const std::
   catch (...) { bump(prefix + "parse-reject-other"); }
 }
 
+// residual token: "-" or comma-separated hex chunks
+static bool parseChunks(const std::string& s, std::vector<std::string>& out)
+{
+  out.clear();
+  if (s == "-") return true;
+  std::stringstream ss(s);
+  std::string item;
+  while (std::getline(ss, item, ','))
+  {
+    Bytes d;
+    if (!vh::ofHex(item, d)) return false;
+    out.emplace_back(d.begin(), d.end());
+  }
+  return true;
+}
+
 static std::string guarded(const std::function<std::string()>& f)
 {
   try { return f(); }
@@ -667,15 +700,32 @@ int main()
         L.s->suppressThrow = t[2] == "thr" ? 1 : (t[2] == "thx" ? 2 : 0);
         return "ok";
       }
-      if (t.size() == 3 && t[0] == "hook" && t[1] == "drain" && (t[2] == "0" || t[2] == "thr" || t[2] == "thx"))
+      if (t.size() == 3 && t[0] == "hook" && t[1] == "drain")
       {
-        L.s->drainThrow = t[2] == "thr" ? 1 : (t[2] == "thx" ? 2 : 0);
+        std::string mode = t[2];
+        long at = -1;
+        auto p = mode.find('@');
+        if (p != std::string::npos)
+        {
+          if (!vh::parseNat(mode.substr(p + 1), n)) return "bad-op";
+          at = static_cast<long>(n);
+          mode = mode.substr(0, p);
+        }
+        if (mode != "0" && mode != "thr" && mode != "thx") return "bad-op";
+        if (mode == "0" && at >= 0) return "bad-op";
+        L.s->drainThrow = mode == "thr" ? 1 : (mode == "thx" ? 2 : 0);
+        L.s->drainThrowAt = at;
         return "ok";
       }
       if ((t.size() == 4 || t.size() == 5) && t[0] == "req" && vh::ofHex(t[1], d) && t[2].size() == 6)
       {
         Bytes residual;
-        if (t.size() == 5 && !vh::ofHex(t[4], residual)) return "bad-op";
+        std::vector<std::string> chunks;
+        if (t.size() == 5 && !parseChunks(t[4], chunks)) return "bad-op";
+        if (!chunks.empty()) residual.assign(chunks[0].begin(), chunks[0].end());
+        L.s->laterReads.clear();
+        for (std::size_t i = 1; i < chunks.size(); ++i) L.s->laterReads.push_back(chunks[i]);
+        L.s->drainCallCount.store(0);
         const std::string& b = t[2];
         for (char c : b) if (c != '0' && c != '1') return "bad-op";
         bool sh = b[0] == '1', tr = b[1] == '1', flip = b[2] == '1', enq = b[3] == '1', upc = b[4] == '1', trs = b[5] == '1';
@@ -691,6 +741,8 @@ int main()
             // bytes that arrived behind this request in the same read: what the extractor leaves in the session buffer
             si.buffer.assign(residual.begin(), residual.end());
           }
+          // the five-token form mimics handleIncomingData for a request with an Upgrade header: the hold is set in the section that stores the rest
+          if (t.size() == 5) L.s->_upgradePending.insert(Lock::sid);
         }
         L.s->_shutdown.store(sh);
         L.s->_transport = (sh ? tr : trs) ? L.transport : nullptr;
@@ -703,9 +755,21 @@ int main()
         if (sh) bump(tr ? "req:shutdown-arm" : "req:shutdown-arm-no-transport");
         else countCategory(*L.s, req, "req:");
         if (!residual.empty()) bump(t[3] != "-" ? "req:residual-in-session-buffer" : "req:residual-but-no-session");
-        try { L.s->processHttpRequest(Lock::sid, req); }
+        try
+        {
+          if (t.size() == 5) L.s->processHttpRequest(Lock::sid, req, L.s->_transportEpoch.load(), true);
+          else L.s->processHttpRequest(Lock::sid, req);
+        }
         catch (const std::exception& e) { thrown = std::string("throw ") + typeid(e).name(); }
         catch (...) { thrown = "throw unknown"; }
+        bool holdLeft;
+        {
+          std::lock_guard<std::mutex> g(L.s->_sessionMutex);
+          holdLeft = L.s->_upgradePending.count(Lock::sid) > 0;
+          L.s->_upgradePending.erase(Lock::sid);
+          L.s->_upgradedSessions.erase(Lock::sid);
+        }
+        L.s->laterReads.clear();
         L.s->_shutdown.store(false);
         L.s->_transport = L.transport;
         L.s->flipInUserCode.store(false);
@@ -713,6 +777,8 @@ int main()
         L.shutdownAfterSend.store(false);
         L.resetTransportAfterSend.store(false);
         std::string o = L.outcome(Lock::sid);
+        if (holdLeft) return "upgrade-hold-not-released " + o;      // every exit of processHttpRequest must release _upgradePending
+        if (t.size() == 5) o += " hooks=" + std::to_string(L.s->drainCallCount.load());
         return thrown.empty() ? o : thrown;
       }
       if ((t.size() == 2 && t[0] == "dispatch" && vh::ofHex(t[1], d)) || (t.size() == 3 && t[0] == "dispatchr" && vh::ofHex(t[1], d)))
@@ -720,7 +786,12 @@ int main()
         // `dispatchr <request> <residual>`: ONE read carries the request and bytes behind it (e.g. an upgrade request and the first frame of
         // the upgraded protocol): the extractor leaves the residual in the session buffer, the worker's upgrade arm drains it
         Bytes residual;
-        if (t.size() == 3 && !vh::ofHex(t[2], residual)) return "bad-op";
+        std::vector<std::string> chunks;
+        if (t.size() == 3 && !parseChunks(t[2], chunks)) return "bad-op";
+        if (!chunks.empty()) residual.assign(chunks[0].begin(), chunks[0].end());
+        L.s->laterReads.clear();
+        for (std::size_t i = 1; i < chunks.size(); ++i) L.s->laterReads.push_back(chunks[i]);
+        L.s->drainCallCount.store(0);
         if (!residual.empty()) bump("dispatch:request-plus-residual-in-one-read");
         // the real I/O-thread path: handleIncomingData -> tryEnqueue -> pool worker -> processHttpRequest
         countCategory(*L.s, std::string(d.begin(), d.end()), "dispatch:");
@@ -732,12 +803,20 @@ int main()
         }
         L.s->handleIncomingData(sid, d.data(), d.size());
         bool idle = L.waitIdle(5000);
+        bool holdLeft;
         {
           std::lock_guard<std::mutex> g(L.s->_sessionMutex);
           L.s->_sessionInfo.erase(sid);
+          holdLeft = L.s->_upgradePending.count(sid) > 0;
+          L.s->_upgradePending.erase(sid);
+          L.s->_upgradedSessions.erase(sid);
         }
+        L.s->laterReads.clear();
         if (!idle) return "pool-not-idle";
-        return L.outcome(sid);
+        if (holdLeft) return "upgrade-hold-not-released " + L.outcome(sid);
+        std::string o = L.outcome(sid);
+        if (t[0] == "dispatchr") o += " hooks=" + std::to_string(L.s->drainCallCount.load());
+        return o;
       }
       if (t.size() == 3 && t[0] == "parr" && vh::parseNat(t[1], n) && vh::ofHex(t[2], d))
       {
